@@ -101,4 +101,72 @@ theorem recover_cut (cfg : Cfg) (w m : Bytes) (n : Nat) (hn : n ≤ w.length)
             (fun p hp h => no_savepoint_at_zero w hsep (h ▸ hp)) hok
         simp [h0, hrep, hrc]
 
+/-- **Checksums (partial).**  Checksums on.  `w` is an intact log whose complete roll-forward succeeds; `w'` has the
+same length and is unchanged up to and including the header of the separator at `p` (stored checksum `c ≠ 0`,
+earlier segments end before `p`), and the bytes now covered by that checksum no longer hash to `c`; what comes
+after may be changed in any way.  Then recovery of `w'` either fails with `corrupted` or ends in a savepoint state
+of `w` (one before `p`).  Hypotheses that make this *partial*: `c ≠ 0` (the code skips the test for a zero field),
+the abstract `crc` tells the two byte strings apart, the separator header itself is intact (it is not covered by
+any checksum), and the pre-scan of the damaged log sees no reset mark (`mode = 2`, or its reset position is 0). -/
+theorem crc_detects_partial (cfg : Cfg) (hcrc : cfg.crcOn = true) (w w' m : Bytes) (p c len mode : Nat)
+    (hlen : w.length = w'.length) (hsep : w.headD 0 = WOP_SEP)
+    (hp : (p, Rec.sep c len) ∈ walk w) (hc : c ≠ 0)
+    (hsame : w.take (p + 12) = w'.take (p + 12))
+    (hdisj : ∀ q c' l', (q, Rec.sep c' l') ∈ walk w → q < p → q + 12 + l' ≤ p)
+    (hdetect : cfg.crc ((w'.drop (p + 12)).take len) ≠ c)
+    (hok : (replay cfg 0 w m).rc = .ok)
+    (hmode : mode = 2 ∨ (mode = 1 ∧ (prescan w').2 = 0)) :
+    (rollforward cfg mode 0 w' m).rc = .corrupted ∨
+      ∃ f, (f = 0 ∨ (f, Rec.savepoint) ∈ walk w) ∧ rollforward cfg mode 0 w' m = ⟨.ok, stateAt cfg w m f⟩ := by
+  have hne : w'.isEmpty = false := by
+    cases w' with
+    | nil =>
+      have : w = [] := List.eq_nil_of_length_eq_zero (by simpa using hlen)
+      subst this; simp [walk, walkAux] at hp
+    | cons a t => rfl
+  have hm0 : mode ≠ 0 := by rcases hmode with h | ⟨h, _⟩ <;> omega
+  unfold rollforward
+  simp only [hne, Bool.false_eq_true, if_false, hm0, ne_eq, not_false_eq_true, if_true]
+  generalize hpf : prescan w' = pf
+  obtain ⟨f', r'⟩ := pf
+  simp only []
+  by_cases hf0 : f' = 0
+  · right; exact ⟨0, Or.inl rfl, by simp [hf0, stateAt]⟩
+  · have hbranch : ¬ (r' > 0 ∧ mode = 1) := by
+      rcases hmode with h | ⟨_, h2⟩
+      · omega
+      · rw [hpf] at h2; simp only at h2; omega
+    simp only [hf0, if_false, hbranch]
+    have key := replayAux_corrupt cfg hcrc f' 0 p c len hc w.length w w' 0 true m hlen (Nat.zero_le _)
+      (by simpa using hsame) hp hdisj (fun q hq h => no_savepoint_at_zero w hsep (h ▸ hq)) hok (by simpa using hdetect)
+    have hrw : replay cfg f' w' m = replayAux cfg f' w.length w' 0 true m := by unfold replay; rw [hlen]
+    rw [hrw]
+    rcases key with h | ⟨h1, h2, h3⟩
+    · left; exact h
+    · right
+      refine ⟨f', Or.inr h2, ?_⟩
+      rw [h3]
+      have hrc : (replay cfg f' w m).rc = .ok :=
+        replayAux_stop_ok cfg f' 0 w.length w 0 true m (fun q hq h => no_savepoint_at_zero w hsep (h ▸ hq)) hok
+      unfold replay at hrc
+      unfold stateAt replay
+      simp only [hf0, if_false]
+      cases hh : replayAux cfg f' w.length w 0 true m with
+      | mk rc mn => rw [hh] at hrc; simp only at hrc; subst hrc; rfl
+
+/-- the executable test the correspondence check runs on every real log implies the hypothesis of `recover_cut` -/
+theorem segClosedB_sound (w : Bytes) (h : segClosedB w = true) : SegClosed w := by
+  intro p c l s hp hs hlt
+  unfold segClosedB at h
+  rw [List.all_eq_true] at h
+  have h1 := h (p, Rec.sep c l) hp
+  simp only [] at h1
+  rw [List.all_eq_true] at h1
+  have h2 := h1 (s, Rec.savepoint) hs
+  simp only [beq_self_eq_true, Bool.not_true, Bool.false_or, Bool.or_eq_true, Bool.not_eq_true', decide_eq_false_iff_not,
+    decide_eq_true_eq] at h2
+  rcases h2 with h2 | h2
+  · exact absurd hlt h2
+  · exact h2
+
 end IwModel.C05
